@@ -325,3 +325,79 @@ def known_recursion_depth(k: int) -> bool:
         except ElementPathError:
             pass
     return True
+
+
+# recorded finding: sources from the round-3 baseline report that still raise an exception that is not an ElementPathError (listed input by input;
+# any OTHER source that does so is reported by the main obligations above)
+KNOWN_UNCAUGHT = (
+    ('//.!name()', 'AttributeError'),
+    ('number({H})', 'OverflowError'),
+    ('substring("abc", {H})', 'OverflowError'),
+    ('floor({H})', 'OverflowError'),
+    ('ceiling({H})', 'OverflowError'),
+    ('sum(({H}, 1e0))', 'OverflowError'),
+    ('avg(({H}, 1e0))', 'OverflowError'),
+    ('avg({H})', 'InvalidOperation'),
+    ('max(({H}, 1e0))', 'OverflowError'),
+    ('subsequence((1,2,3), {H})', 'OverflowError'),
+    ('xs:boolean({H})', 'OverflowError'),
+    ('math:sqrt({H})', 'OverflowError'),
+    ('math:sin({H})', 'OverflowError'),
+    ('math:atan2(1e0, {H})', 'OverflowError'),
+    ('format-number({H}, "#")', 'OverflowError'),
+    ("format-integer({H}, 'I')", 'OverflowError'),
+    ('1e308 idiv 1e-308', 'OverflowError'),
+    ('1 idiv 1e-320', 'OverflowError'),
+    ("true() idiv xs:float('-INF')", 'TypeError'),
+    ("xs:double('INF') * xs:dayTimeDuration('PT0S')", 'InvalidOperation'),
+    ("xs:dayTimeDuration('PT0S') div xs:dayTimeDuration('PT0S')", 'InvalidOperation'),
+    ("substring('abc', xs:untypedAtomic('1'))", 'TypeError'),
+    ("substring('abc', xs:untypedAtomic('x'))", 'ValueError'),
+    ("codepoints-to-string(xs:untypedAtomic('x'))", 'ValueError'),
+    ("years-from-duration(xs:untypedAtomic('1'))", 'TypeError'),
+    ('years-from-duration(/a/@x)', 'TypeError'),
+    ("index-of(xs:untypedAtomic('x'), 0)", 'ValueError'),
+    ("index-of(xs:untypedAtomic('x'), 0.1)", 'ValueError'),
+    ("index-of(xs:untypedAtomic('x'), true())", 'ValueError'),
+    ("index-of(xs:untypedAtomic('1'), xs:dayTimeDuration('P1D'))", 'ValueError'),
+    ("index-of(//b1, xs:gYear('2000'))", 'ValueError'),
+    ('distinct-values((1, /a/b1))', 'ValueError'),
+    ('distinct-values((1, 1, .))', 'ValueError'),
+    ("math:atan2((), xs:double('NaN'))", 'TypeError'),
+    ('math:atan2(/, 1.5)', 'TypeError'),
+    ("format-integer(1.5, 'a')", 'TypeError'),
+    ("format-integer(1e0, 'a')", 'TypeError'),
+    ("format-integer(xs:double('NaN'), '1')", 'IndexError'),
+    ("format-integer(xs:float('-INF'), '#.0')", 'IndexError'),
+    ("function-name([1, 'a'])", 'ValueError'),
+    ('function-name([])', 'ValueError'),
+    ('map:merge(3)', 'AssertionError'),
+    ('map:merge(//b1)', 'AssertionError'),
+    ('map:merge(function($x){$x})', 'AssertionError'),
+    ("deep-equal([1, 'a'], map{})", 'AssertionError'),
+    ('deep-equal(//b1, [])', 'AssertionError'),
+    ('1 => function()', 'AssertionError'),
+    ('1 instance of p:*', 'ValueError'),
+    ("unparsed-text('http://[')", 'ValueError'),
+    ("json-doc('http://[')", 'ValueError'),
+    ("format-dateTime(xs:dateTime('2000-01-01T12:30:45+05:00'), '[Y]', 'en', 'ISO', '')", 'ValueError'),
+)
+
+
+@ob(budget=120, kind='witness', finding='C03-uncaught-exceptions-listed', bound='the %d listed sources ({H} = a 401-digit integer literal), XPath 3.1, context item <a x="1"><b1>t</b1><b2>t2</b2><b3>t3</b3></a>' % len(KNOWN_UNCAUGHT),
+    funcs=['elementpath/xpath_tokens/base.py:XPathToken.get_argument', 'elementpath/helpers.py:get_double', 'elementpath/xpath30/_xpath30_functions.py', 'elementpath/xpath31/_xpath31_functions.py'])
+def known_uncaught_exceptions_listed(k: int) -> bool:
+    """
+    pre: k == 1
+    post: _
+    """
+    import xml.etree.ElementTree as _CET
+    root = _CET.XML('<a x="1"><b1>t</b1><b2>t2</b2><b3>t3</b3></a>')
+    for src, _exc in KNOWN_UNCAUGHT:
+        src = src.replace('{H}', '1' + '0' * 400)
+        try:
+            p = XPath31Parser(namespaces={'p': 'urn:p'}) if 'p:' in src else XPath31Parser()
+            p.parse(src).evaluate(XPathContext(root, item=root))
+        except ElementPathError:
+            pass
+    return True
